@@ -91,8 +91,39 @@ struct RefDLO {
     length_t get_nc() const { return F->nc; }
     length_t get_nc_N() const { return F->nc_N; }
     void check() const {}
-    void eval_proj_diff_g(crvec, rvec e) const { e.setZero(); }
-    void eval_proj_multipliers(rvec, real_t) const {}
+    // The C ABI has no members for the two projections: the documented behaviour of the loader is the box
+    // projection on the stage set D (N times) followed by the terminal set D_N, with the boxes the plug-in
+    // reports (unbounded where it reports none; D_N = D without get_D_N).  Written out componentwise here,
+    // independently of alpaqa's Box helpers.  Like the loader, the reference asks the plug-in for its boxes
+    // once, when it is set up (`init_boxes`).
+    vec lb, ub;
+    void init_boxes() {
+        const length_t N = F->N, nc = F->nc, ncN = F->nc_N;
+        lb = vec::Constant(N * nc + ncN, -alpaqa::inf<config_t>);
+        ub = vec::Constant(N * nc + ncN, +alpaqa::inf<config_t>);
+        vec l = vec::Constant(nc, -alpaqa::inf<config_t>), u = vec::Constant(nc, +alpaqa::inf<config_t>);
+        if (F->get_D) F->get_D(inst, l.data(), u.data());
+        for (length_t t = 0; t < N; ++t) { lb.segment(t * nc, nc) = l; ub.segment(t * nc, nc) = u; }
+        vec lN = vec::Constant(ncN, -alpaqa::inf<config_t>), uN = vec::Constant(ncN, +alpaqa::inf<config_t>);
+        if (F->get_D_N) F->get_D_N(inst, lN.data(), uN.data());
+        else if (F->get_D && ncN == nc) { lN = l; uN = u; }
+        lb.tail(ncN) = lN; ub.tail(ncN) = uN;
+    }
+    void eval_proj_diff_g(crvec z, rvec e) const {
+        for (index_t i = 0; i < z.size(); ++i) {
+            real_t p = z(i) < lb(i) ? lb(i) : z(i); // max(z, lb)  (NaN stays NaN as with std::max(z, lb))
+            p        = ub(i) < p ? ub(i) : p;       // min(·, ub)
+            e(i)     = z(i) - p;
+        }
+    }
+    void eval_proj_multipliers(rvec y, real_t M) const {
+        for (index_t i = 0; i < y.size(); ++i) {
+            const real_t ylb = lb(i) == -alpaqa::inf<config_t> ? 0 : -M;
+            const real_t yub = ub(i) == +alpaqa::inf<config_t> ? 0 : +M;
+            real_t v = y(i) < ylb ? ylb : y(i);
+            y(i)     = yub < v ? yub : v;
+        }
+    }
     void get_U(Box &U) const { F->get_U(inst, U.lowerbound.data(), U.upperbound.data()); }
     void get_D(Box &D) const { F->get_D(inst, D.lowerbound.data(), D.upperbound.data()); }
     void get_D_N(Box &D) const { F->get_D_N(inst, D.lowerbound.data(), D.upperbound.data()); }
@@ -158,6 +189,17 @@ bool ocp_null_call(const TEO &te, const std::string &fn) {
 
 std::string fmtm(const mat &M) { return fmtv(M.reshaped()); }
 
+/// a vector over all stages (N·nc + nc_N entries) from one stage's worth of data: stage t gets M scaled,
+/// reflected and shifted, so that different stages fall inside and on either side of the plug-in's bounds (±62)
+vec all_stages(const TEO &te, crvec M) {
+    const length_t N = te.get_N(), nc = te.get_nc(), ncN = te.get_nc_N();
+    vec z(N * nc + ncN);
+    for (length_t t = 0; t <= N; ++t)
+        for (length_t i = 0; i < (t < N ? nc : ncN); ++i)
+            z(t * nc + i) = (t % 2 ? -25 : 25) * M(i % std::max<length_t>(M.size(), 1)) + real_t(t) * 20;
+    return z;
+}
+
 Res call_ocp(const TEO &te, const std::string &fn, const Args &A, length_t rw, length_t sw) {
     const length_t nx = te.get_nx(), nu = te.get_nu(), nh = te.get_nh(), nc = te.get_nc();
     const crvec x = A.x, u = A.y, h = A.S, p = A.v, M = A.e5;
@@ -167,8 +209,8 @@ Res call_ocp(const TEO &te, const std::string &fn, const Args &A, length_t rw, l
     return guarded([&]() -> std::string {
         std::string s;
         const index_t t = A.i;
-        if (fn == "eval_proj_diff_g") { vec e = buf(nc); te.eval_proj_diff_g(M, e); s = fmtv(e); }
-        else if (fn == "eval_proj_multipliers") { vec y = M; te.eval_proj_multipliers(y, A.a); s = fmtv(y); }
+        if (fn == "eval_proj_diff_g") { vec z = all_stages(te, M), e = buf(z.size()); te.eval_proj_diff_g(z, e); s = fmtv(e); }
+        else if (fn == "eval_proj_multipliers") { vec y = all_stages(te, M); te.eval_proj_multipliers(y, A.a); s = fmtv(y); }
         else if (fn == "get_U") { Box B = Box::NaN(nu); te.get_U(B); s = fmt_box(B); }
         else if (fn == "get_D") { Box B = Box::NaN(nc); te.get_D(B); s = fmt_box(B); }
         else if (fn == "get_D_N") { Box B = Box::NaN(nc); te.get_D_N(B); s = fmt_box(B); }
